@@ -12,7 +12,7 @@ From TS Require Import Model.Lang.TypeScript Model.Lang.Kotlin Model.Lang.Swift 
 From TS Require Import Spec.Lexers Spec.C15Spec Spec.C15Render.
 From TS Require Proofs.C15_Front Proofs.C15_Replace Proofs.C15 Proofs.C15_Render Proofs.C15_Kotlin Proofs.C15_Go Proofs.C15_Swift Proofs.C15_Python Proofs.C15_TypeScript.
 From TS Require Import Spec.C15RenderGo.
-From TS Require Proofs.C15_GoItem.
+From TS Require Proofs.C15_GoItem Proofs.C15_GoFile.
 Import ListNotations.
 
 (* ---- front end (after the repair of parse_comment_attrs): a doc attribute with value v - which is what `/// v`,
@@ -461,3 +461,49 @@ Theorem C15_go_item_line_free : forall (uc : unicode) (cfg : go_config) custom_s
     c15_contained C15go LCode (mark (c15_file_pieces C15go parts)) = true.
 Proof. exact Proofs.C15_GoItem.C15_go_item_line_free. Qed.
 Print Assumptions C15_go_item_line_free.
+
+(* ---- Go, WHOLE FILES (go_generate: the version header line, the package clause, the import block collected while the
+   items are printed, the items in topological order with the printer state threaded through them), no neutrality
+   hypothesis.  For every parsed program whose items are in the class of C15_go_item, with type_mappings targets and
+   acronyms as there and a package name without `/`, quotes and backtick: the generated file is code parts and `// `
+   fragments whose doc strings are - unless no_version_header is set - the line typeshare writes at the top of the file
+   (the version string is printed inside this comment), followed by the doc strings of the items in output order (a
+   permutation of the program's items; helper structs first within an enum); and the file is contained iff all these
+   strings are safe_go.  The import block is neutral whatever the items are: the printer state only ever receives the
+   two import paths go.rs adds itself.  Second theorem: with doc strings free of line breaks (every parsed item) and a
+   version string without a line feed, the file is contained. ---- *)
+Theorem C15_go_file : forall (uc : unicode), unicode_ok uc -> forall (cfg : go_config),
+  c15_go_mappings_ok (go_type_mappings cfg) = true ->
+  forallb (forallb is_ascii) (go_uppercase_acronyms cfg) = true ->
+  c15_plain C15go (go_package cfg) = true ->
+  forall pd text,
+  forallb c15_go_item_ok (items_of pd) = true ->
+  go_generate uc cfg pd = Ok text ->
+  let header := if go_no_version_header cfg then []
+                else [lit "Code generated by typeshare " ++ go_version cfg ++ lit ". DO NOT EDIT."] in
+  exists items parts,
+    topsort (items_of pd) = Ok items /\ Permutation items (items_of pd) /\
+    text = text_of (c15_file_pieces C15go parts) /\
+    docs_of (c15_file_pieces C15go parts) = header ++ flat_map c15_item_docs_helpers_first items /\
+    c15_contained C15go LCode (mark (c15_file_pieces C15go parts)) =
+    forallb safe_go (header ++ flat_map c15_item_docs_helpers_first items).
+Proof. exact Proofs.C15_GoFile.C15_go_file. Qed.
+Print Assumptions C15_go_file.
+Theorem C15_go_file_line_free : forall (uc : unicode), unicode_ok uc -> forall (cfg : go_config),
+  c15_go_mappings_ok (go_type_mappings cfg) = true ->
+  forallb (forallb is_ascii) (go_uppercase_acronyms cfg) = true ->
+  c15_plain C15go (go_package cfg) = true ->
+  forall pd text,
+  forallb c15_go_item_ok (items_of pd) = true ->
+  Forall (fun d => safe_line eol_lf_cr d = true) (flat_map c15_item_docs (items_of pd)) ->
+  safe_go (go_version cfg) = true ->
+  go_generate uc cfg pd = Ok text ->
+  let header := if go_no_version_header cfg then []
+                else [lit "Code generated by typeshare " ++ go_version cfg ++ lit ". DO NOT EDIT."] in
+  exists items parts,
+    topsort (items_of pd) = Ok items /\ Permutation items (items_of pd) /\
+    text = text_of (c15_file_pieces C15go parts) /\
+    docs_of (c15_file_pieces C15go parts) = header ++ flat_map c15_item_docs_helpers_first items /\
+    c15_contained C15go LCode (mark (c15_file_pieces C15go parts)) = true.
+Proof. exact Proofs.C15_GoFile.C15_go_file_line_free. Qed.
+Print Assumptions C15_go_file_line_free.
